@@ -2,7 +2,9 @@
   Driver.Prog — shared front end of the differentiation drivers (C04, C05, C15): parsing of
   instruction lines into `Spec.Instr`, the table of named user functions, element types.
 
-  Instruction lines (the result name is a letter followed by the instruction's position):
+  Instruction lines (the second token names the result; operands are names of earlier results;
+  a line with an unknown operand name is answered `bad-ref` and ignored — this only happens in
+  shrunk replays):
 
     const c3 <num>                       Record::constant / zero / one / from_usize / pi
     var x4 <num>                         Record::variable / WengertList::variable
@@ -79,10 +81,10 @@ def binaryFn : String → Option ((R → R → R) × (R → R → R) × (R → R
   | "psq" => some (fun x y => x * x * y, fun x y => two * x * y, fun x _ => x * x)
   | _ => none
 
-/-- position encoded in a result name (`r17` ↦ 17) -/
-def nameIdx (s : String) : Option Nat := (s.drop 1).toString.toNat?
+/-- result names seen so far in a case, with the position of the instruction that made them -/
+abbrev Names := List (String × Nat)
 
-def parseRefs (s : String) : Option (List Nat) := (splitComma s).mapM nameIdx
+def Names.find (names : Names) (s : String) : Option Nat := names.lookup s
 
 def arithOf : String → Option Arith
   | "add" => some .add | "sub" => some .sub | "mul" => some .mul | "div" => some .div
@@ -103,7 +105,9 @@ def realOf : String → Option RealFn
 
 /-- Parses an instruction line.  For `var` the value is returned separately (it belongs to the
     input point, not to the program). -/
-def parseInstr (toks : List String) : Option (Instr R × Option R) :=
+def parseInstr (names : Names) (toks : List String) : Option (Instr R × Option R) :=
+  let nameIdx := names.find
+  let parseRefs := fun (s : String) => (splitComma s).mapM nameIdx
   match toks with
   | "const" :: _ :: v :: _ => (Elem.parse v).map fun c => (.const c, none)
   | "var" :: _ :: v :: _ => (Elem.parse v).map fun x => (.var, some x)
@@ -149,6 +153,14 @@ def parseInstr (toks : List String) : Option (Instr R × Option R) :=
     | some f => (nameIdx a).map fun a => (.real f a, none)
     | none => none
   | _ => none
+
+/-- is the first token an instruction keyword (then a parse failure is a dangling operand) -/
+def knownOp (toks : List String) : Bool :=
+  match toks with
+  | op :: _ =>
+    ["const", "var", "neg", "sum", "pow", "pown", "npow", "unary", "binary"].contains op
+      || (arithOf op).isSome || (arithNumOf op).isSome || (swappedOf op).isSome || (realOf op).isSome
+  | [] => false
 
 def renderList (l : List R) : String :=
   if l.isEmpty then "-" else ",".intercalate (l.map Elem.render)
